@@ -111,7 +111,7 @@ func workC01Bytes(w *run.W) {
 	for i := 0; i < len(states); i++ {
 		s := states[i]
 		if s.depth < p.Depth {
-			for _, tok := range c12Tokens {
+			for _, tok := range c12Tokens[:c12BaseTokens] {
 				k, dead := c12State(s.witness + tok)
 				if !dead && !seen[k] {
 					seen[k] = true
